@@ -75,7 +75,7 @@ func (k checker) one(s meshlib.Spec, skey string, sh ml.Shape, op ml.Op, p ml.Pa
 		label = "mismatch"
 		if alarmed {
 			k.c.Violate(core.Violation{Site: site, Clause: clause, Class: class,
-				Detail: fmt.Sprintf("%s(%s) on %s: %s", op.Name, p, s, detail), Case: cs})
+				Detail: fmt.Sprintf("%s(%s) on %s: %s", op.Name, p, trim(skey, 400), trim(detail, 1200)), Case: cs})
 		}
 	}
 	switch {
@@ -284,4 +284,11 @@ func (k checker) ladder() {
 			}
 		}
 	}
+}
+
+func trim(s string, n int) string {
+	if len(s) > n {
+		return s[:n] + "…"
+	}
+	return s
 }
